@@ -97,6 +97,10 @@ def corpus():
         cs.append((f21, v))
     cs.append((["DCompound", [["DInt"], ["DCompound", [["DAdapt", 100, 2, False, ["PNone"]], ["DCast", "CTStr"]]]]], ["PFloat", F(0.5)]))
     cs.append((["DCompound", [["DAdapt", 100, 2, True, ["PNone"]], ["DInt"]]], S("a")))
+    fwd = ["DCompound", [["DInstance", 100, False, False, "name"], ["DInt"]]]
+    for v in (["PObj", 100, 1], ["PObj", 101, 1], ["PObj", 102, 1], ["PInt", 1], ["PNone"], ["PProxy", 100, 1]):
+        cs.append((fwd, v))
+        cs.append((["DCompound", [["DStr"], ["DInstance", 101, True, False, "name"]]], v))
     two_tuples = ["DCompound", [["DTuple", [["DFloat"], ["DStr"]]], ["DTuple", [["DInt"], ["DInt"]]]]]
     for v in (["PTuple", [["PInt", 1], ["PInt", 2]]], ["PTuple", [["PBool", False], ["PInt", 2]]],
               ["PTuple", [["PInt", 1], S("a")]], ["PTupleSub", [["PInt", 1], ["PInt", 2]]]):
@@ -161,6 +165,11 @@ def gen_cases(ctx, rnd):
         ["DCompound", [["DRangeI", 0, 5, 0], ["DFloat"]]], ["DCompound", [["DType", 100, True], ["DInstance", 100, False, False]]],
         ["DCompound", [["DSelf", False], ["DBool"], ["DPrefixList", [pv.W("yes"), pv.W("no")]]]],
         ["DCompound", [["DCast", "CTFloat"], ["DInt"]]], ["DCompound", [["DCast", "CTBool"], ["DStr"]]],
+        # a forward-declared Instance("Name") alternative (validated after its class has been resolved)
+        ["DCompound", [["DInstance", 100, False, False, "name"], ["DInt"]]],
+        ["DCompound", [["DStr"], ["DInstance", 101, True, False, "name"]]],
+        ["DCompound", [["DInstance", 100, True, False, "name"], ["DString", 2, 4, None], ["DFloat"]]],
+        ["DTuple", [["DCompound", [["DInstance", 100, False, False, "name"], ["DInt"]]], ["DInt"]]],
         # two Tuple alternatives: the first converts an item and then rejects, the second must see the original value
         ["DCompound", [["DTuple", [["DFloat"], ["DStr"]]], ["DTuple", [["DInt"], ["DInt"]]]]],
         ["DCompound", [["DTuple", [["DCast", "CTStr"], ["DBool"]]], ["DTuple", [["DInt"], ["DInt"]]], ["DTuple", [["DAny"], ["DAny"]]]]],
